@@ -54,6 +54,7 @@ def _selftest_task(args):
         return {'scenario': ob.scenario, 'params': ob.params, 'cases': 0,
                 'mismatches': [{'error': 'input discovery failed: %r' % (e,)}]}
     inputs = holder['ctx'].inputs
+    int_inputs = holder['ctx'].int_inputs
     rng = random.Random(hash((seed, ob.key())) & 0xffffffff)
     nice = [-2.0, -1.0, -0.5, 0.0, 0.5, 1.0, 2.0, 3.0]
     vectors = []
@@ -63,6 +64,9 @@ def _selftest_task(args):
         for name, (v, lo, hi) in inputs.items():
             lo_ = -1000.0 if lo is None else float(lo)
             hi_ = 1000.0 if hi is None else float(hi)
+            if name in int_inputs:
+                vec[name] = float(rng.randint(int(lo_), int(hi_)))
+                continue
             cand = [x for x in nice if lo_ <= x <= hi_]
             if cand and rng.random() < 0.45:
                 vec[name] = rng.choice(cand)
